@@ -47,6 +47,16 @@ CHECKS = {
          "every Canonical= flag of reads and Canonical attribute/strand of models is compared with the FASTA.",
          "Trusted: reference function in props/c18.py; for strand '.' only history-independence is required.",
          "DESIGN.md §3 C18"),
+ "C08": ("model_checking",
+         "exhaustive enumeration of all alignment-record multisets (<=3/4 records over a 47-record alphabet) x every permutation on the real MultimapResolver, against an independent priority/tie reference model; pipeline runs over all chromosome-length orders x memory modes",
+         "Every list of 2..k alignment records of one read (assignment type x primary/secondary x chromosome x isoform/gene sets x penalties x "
+         "overlap classes x exact duplicates) is resolved in every presentation order by the real resolver on real BasicReadAssignment objects; the "
+         "outcome must be permutation-invariant and equal to the reference priority model (primary unique > consistent > inconsistent by penalty > "
+         "unassigned; losers suspended; ties kept and flagged). Pipeline: a read with 2-3 alignments on loci built to give chosen types, all "
+         "primary/secondary flag assignments, all chromosome length orders, default and --high_memory; retained loci equal across orders/modes, "
+         "BED/TSV agree, the read's contribution to each count table (difference to the same world without the read) <= 1.",
+         "Trusted: reference model in props/c08.py. Exact duplicates are records equal in all fields but assignment id. One known finding (tied loci counted at each locus).",
+         "DESIGN.md §3 C08"),
 }
 
 NOT_YET = {}
